@@ -471,6 +471,7 @@ pub fn workload(name: &str, tier: &str) -> Option<Box<dyn Workload>> {
     }
     match name {
         "c16" => Some(Box::new(c16::Positions::new(quick))),
+        "c01rec" => Some(Box::new(c01::RecGraphs { n: if quick { 10_000 } else { 300_000 } })),
         "c16nav" => Some(Box::new(c16::LspRanges { n: if quick { 100 } else { 3000 } })),
         "miri" => Some(Box::new(miri::MiriCases)),
         "c13" => Some(Box::new(c13::Workspaces {
